@@ -132,6 +132,46 @@ fn walk_xobject(key: &str, x: &XObject, r: &impl Resolve, o: &mut Obs) {
     }
 }
 
+fn apply_function(key: &str, f: &pdf::object::Function, o: &mut Obs) {
+    use pdf::object::Function;
+    let (nin, nout) = match f {
+        Function::Interpolated(parts) => (1, parts.len()),
+        Function::PostScript { domain, range, .. } => (domain.len() / 2, range.len() / 2),
+        Function::Sampled(_) => (f.input_dim(), f.output_dim()),
+        _ => (1, 1),
+    };
+    if nin > 64 || nout > 64 {
+        o.put(|| format!("{}.function", key), || format!("dims {}x{} not applied", nin, nout));
+        return;
+    }
+    for x0 in [0.0f32, 0.5, 1.0, -1.0, 1e9] {
+        let x = vec![x0; nin];
+        let mut out = vec![0.0f32; nout];
+        match f.apply(&x, &mut out) {
+            Ok(()) => o.put(|| format!("{}.function({})", key, x0), || format!("{:?}", out)),
+            Err(e) => o.err(|| format!("{}.function({})", key, x0), &e),
+        }
+    }
+}
+fn walk_colorspace(key: &str, cs: &pdf::object::ColorSpace, o: &mut Obs, depth: usize) {
+    use pdf::object::ColorSpace;
+    if depth == 0 {
+        return;
+    }
+    match cs {
+        ColorSpace::Separation(_, alt, f) => {
+            apply_function(key, f, o);
+            walk_colorspace(key, alt, o, depth - 1);
+        }
+        ColorSpace::DeviceN { alt, tint, .. } => {
+            apply_function(key, tint, o);
+            walk_colorspace(key, alt, o, depth - 1);
+        }
+        ColorSpace::Indexed(base, _, _) => walk_colorspace(key, base, o, depth - 1),
+        _ => {}
+    }
+}
+
 fn walk_resources(key: &str, res: &Resources, r: &impl Resolve, o: &mut Obs, w: &WalkOpts) {
     let mut names: Vec<&pdf::primitive::Name> = res.fonts.keys().collect();
     names.sort();
@@ -156,6 +196,7 @@ fn walk_resources(key: &str, res: &Resources, r: &impl Resolve, o: &mut Obs, w: 
     for n in names.into_iter().take(40) {
         let cs = &res.color_spaces[n];
         o.put(|| format!("{}.colorspace[{}]", key, n.as_str()), || truncate(&format!("{:?}", cs), 120).split('{').next().unwrap_or("").to_string());
+        walk_colorspace(&format!("{}.colorspace[{}]", key, n.as_str()), cs, o, 8);
     }
     let mut names: Vec<&pdf::primitive::Name> = res.pattern.keys().collect();
     names.sort();
@@ -412,7 +453,12 @@ pub fn open_and_walk(bytes: &[u8], password: &[u8], cfg: Config, w: &WalkOpts, o
                 walk(&f, bytes.len(), w, o);
                 Ok(())
             }
-            Err(e) => Err(err_variant(&e)),
+            Err(e) => {
+                if std::env::var("VERIF_DEBUG").is_ok() {
+                    eprintln!("load error: {}", e);
+                }
+                Err(err_variant(&e))
+            }
         }
     } else {
         match FileOptions::uncached().parse_options(po).password(password).load(bytes.to_vec()) {
